@@ -364,9 +364,10 @@ static unsigned int find_next(uint8_t* bits, unsigned int max, unsigned int valu
         next_value = next_set_bit(bits, max, 0, &notfound);
     }
     if (notfound || next_value != value) {
-        err = set_field(calendar, field, next_value);
-        if (err) goto return_error;
+        /* the lower fields first: a day of 29..31 carried into a shorter month would be normalised into the month after it */
         err = reset_all_min(calendar, lower_orders);
+        if (err) goto return_error;
+        err = set_field(calendar, field, next_value);
         if (err) goto return_error;
     }
     return next_value;
@@ -401,7 +402,6 @@ static int do_next(cron_expr* expr, struct tm* calendar, unsigned int dot) {
     int* resets = NULL;
     int* empty_list = NULL;
     unsigned int second = 0;
-    unsigned int update_second = 0;
     unsigned int minute = 0;
     unsigned int update_minute = 0;
     unsigned int hour = 0;
@@ -423,18 +423,16 @@ static int do_next(cron_expr* expr, struct tm* calendar, unsigned int dot) {
     }
 
     second = calendar->tm_sec;
-    update_second = find_next(expr->seconds, CRON_MAX_SECONDS, second, calendar, CRON_CF_SECOND, CRON_CF_MINUTE, empty_list, &res);
+    find_next(expr->seconds, CRON_MAX_SECONDS, second, calendar, CRON_CF_SECOND, CRON_CF_MINUTE, empty_list, &res);
     if (0 != res) goto return_result;
-    if (second == update_second) {
-        push_to_fields_arr(resets, CRON_CF_SECOND);
-    }
+    /* a lower field restarts from its minimum whenever a higher one moves, also when it had been moved forward itself */
+    push_to_fields_arr(resets, CRON_CF_SECOND);
 
     minute = calendar->tm_min;
     update_minute = find_next(expr->minutes, CRON_MAX_MINUTES, minute, calendar, CRON_CF_MINUTE, CRON_CF_HOUR_OF_DAY, resets, &res);
     if (0 != res) goto return_result;
-    if (minute == update_minute) {
-        push_to_fields_arr(resets, CRON_CF_MINUTE);
-    } else {
+    push_to_fields_arr(resets, CRON_CF_MINUTE);
+    if (minute != update_minute) {
         res = do_next(expr, calendar, dot);
         if (0 != res) goto return_result;
     }
@@ -442,9 +440,8 @@ static int do_next(cron_expr* expr, struct tm* calendar, unsigned int dot) {
     hour = calendar->tm_hour;
     update_hour = find_next(expr->hours, CRON_MAX_HOURS, hour, calendar, CRON_CF_HOUR_OF_DAY, CRON_CF_DAY_OF_WEEK, resets, &res);
     if (0 != res) goto return_result;
-    if (hour == update_hour) {
-        push_to_fields_arr(resets, CRON_CF_HOUR_OF_DAY);
-    } else {
+    push_to_fields_arr(resets, CRON_CF_HOUR_OF_DAY);
+    if (hour != update_hour) {
         res = do_next(expr, calendar, dot);
         if (0 != res) goto return_result;
     }
@@ -456,9 +453,8 @@ static int do_next(cron_expr* expr, struct tm* calendar, unsigned int dot) {
     update_day_of_month = find_next_day(calendar, expr->days_of_month, day_of_month, expr->days_of_week, day_of_week, resets, &res);
     if (0 != res) goto return_result;
     /* the same day number in a later month is another day: the time of day was reset on the way and has to be searched again */
-    if (day_of_month == update_day_of_month && month == (unsigned int) calendar->tm_mon && year == calendar->tm_year) {
-        push_to_fields_arr(resets, CRON_CF_DAY_OF_MONTH);
-    } else {
+    push_to_fields_arr(resets, CRON_CF_DAY_OF_MONTH);
+    if (!(day_of_month == update_day_of_month && month == (unsigned int) calendar->tm_mon && year == calendar->tm_year)) {
         res = do_next(expr, calendar, dot);
         if (0 != res) goto return_result;
     }
